@@ -232,8 +232,10 @@ func buildWorld(dir string, rng *rand.Rand) *c43World {
 		}
 		atime := old(agentIdle + dl.d)
 		mtime := old(agentIdle - dl.d) // opposite side of the threshold
+		mdesc := ",mtime=30d" + neg(dl.name)
 		if rng.Intn(3) == 0 {
 			mtime = randomAge()
+			mdesc = ",mtime=random"
 		}
 		stamps = append(stamps, stamp{exe, atime, mtime})
 		// the version directory's own times must not matter
@@ -242,12 +244,30 @@ func buildWorld(dir string, rng *rand.Rand) *c43World {
 		if dl.d > 0 {
 			exp = "removed"
 		}
-		add(&c43Item{Kind: "agent", Rel: rel, AgeDesc: "atime=30d" + dl.name, Expect: exp, probe: probes})
+		add(&c43Item{Kind: "agent", Rel: rel, AgeDesc: "atime=30d" + dl.name + mdesc, Expect: exp, probe: probes})
 	}
 	// an agents entry without an agent executable: not an installation; never judged
 	w.write(filepath.Join(w.data, "agents", "9.9.9-partial", "README"), rng, 0o644)
 	stamps = append(stamps, stamp{filepath.Join(w.data, "agents", "9.9.9-partial", "README"), old(90 * day), old(90 * day)})
 	add(&c43Item{Kind: "odd", Rel: "agents/9.9.9-partial", AgeDesc: "no executable", Expect: "either", probe: []string{"agents/9.9.9-partial/README"}})
+
+	// installations in progress: the version directory exists and is fresh, the agent binary has
+	// not been renamed into it yet (agent.install copies to a temporary name first)
+	for k := 0; k < 1+rng.Intn(2); k++ {
+		rel := filepath.Join("agents", fmt.Sprintf("0.%d.0-installing", 90+k))
+		probes := []string{}
+		must(os.MkdirAll(filepath.Join(w.data, rel), 0o700))
+		if rng.Intn(2) == 0 {
+			tmpName := filepath.Join(rel, ".mutagen-agent-partial")
+			w.write(filepath.Join(w.data, tmpName), rng, 0o600)
+			probes = append(probes, tmpName)
+		}
+		if rng.Intn(3) == 0 {
+			// a dangling link where the binary will be: cannot be stat'ed either
+			must(os.Symlink("not-there-yet", filepath.Join(w.data, rel, "mutagen-agent")))
+		}
+		add(&c43Item{Kind: "agent-in-progress", Rel: rel, AgeDesc: "fresh directory, no stat-able executable", Expect: "kept", probe: probes})
+	}
 
 	// caches: files, modification time decides; access time is set the other way round
 	nCaches := 4 + rng.Intn(8)
@@ -261,7 +281,7 @@ func buildWorld(dir string, rng *rand.Rand) *c43World {
 		if dl.d > 0 {
 			exp = "removed"
 		}
-		add(&c43Item{Kind: "cache", Rel: rel, AgeDesc: "mtime=7d" + dl.name, Expect: exp, probe: []string{rel}})
+		add(&c43Item{Kind: "cache", Rel: rel, AgeDesc: "mtime=7d" + dl.name + ",atime=7d" + neg(dl.name), Expect: exp, probe: []string{rel}})
 	}
 	// staging roots: directories, the root's own modification time decides
 	nStaging := 3 + rng.Intn(6)
@@ -326,6 +346,14 @@ func buildWorld(dir string, rng *rand.Rand) *c43World {
 		setTimes(s.path, s.atime, s.mtime)
 	}
 	return w
+}
+
+// neg flips the sign of an age delta name ("+1h" -> "-1h").
+func neg(name string) string {
+	if strings.HasPrefix(name, "+") {
+		return "-" + name[1:]
+	}
+	return "+" + name[1:]
 }
 
 func exists(p string) bool {
